@@ -894,16 +894,34 @@ def make_glyph(name, cubs, closed=True):
     return g
 
 
+def make_mixed_glyph(name, cub, lead, closed=True):
+    """a contour that mixes curve types: moveTo, qCurveTo ending where the cubic starts, curveTo
+    DIRECTLY after it (no line in between), lineTo, close/end.  lead: the two points before the cubic."""
+    g = DuckGlyph(name)
+    pen = g.getPen()
+    pts = tup(list(cub))
+    pen.moveTo(lead[0])
+    pen.qCurveTo(lead[1], pts[0])
+    pen.curveTo(*pts[1:])
+    pen.lineTo((FAR.real, FAR.imag))
+    if closed:
+        pen.closePath()
+    else:
+        pen.endPath()
+    return g
+
+
 class UfoMasters(Unit):
     name = "ufo-masters"
     rule = ("glyphs_to_quadratic on two-master glyphs 'cubic a, line, cubic b, line' / 'cubic b, line, cubic a, line' for every ordered pair (a,b) of the 27-curve subset (thorough: 81-curve "
-            "sub-lattice) x max_err in {scalar from the tolerance set, per-master list} x reverse_direction x all_quadratic, closed and open; fonts_to_quadratic on two duck-typed fonts of 9 such glyphs "
+            "sub-lattice) x max_err in {scalar from the tolerance set, per-master list} x reverse_direction x all_quadratic, closed and open, plus (for a+b even) the contour 'quadratic, cubic a|b, line' that mixes curve types with no line between them; fonts_to_quadratic on two duck-typed fonts of 9 such glyphs "
             "(+ one glyph missing from a master, one empty glyph) with max_err_em / max_err / per-font lists: every master's segments keep their on-curve points, each cubic becomes one segment "
             "within its master's tolerance, corresponding segments have the same kind and point count in both masters, return value / lib key as documented; incompatible masters raise; "
             "distinct = each (pair,options)")
     chunk = 2
     required_witnesses = ("glyphs_to_quadratic", "fonts_to_quadratic", "reverse_direction", "per-master tolerances", "result: cubic kept (all_quadratic=False)",
-                          "result: spline of >= 10 segments", "masters forced to a common segment count", "incompatible masters rejected", "open contour", "empty master skipped")
+                          "result: spline of >= 10 segments", "masters forced to a common segment count", "incompatible masters rejected", "open contour", "empty master skipped",
+                          "quadratic segment directly before a cubic one")
 
     def cases(self, tier, seed):
         yield ["incompatible"]
@@ -979,6 +997,17 @@ class UfoMasters(Unit):
                                 rec.witness("open contour")
                             tols = list(err) if isinstance(err, tuple) else [err, err]
                             self.judge(rec, "glyphs_to_quadratic", glyphs, ins, before, modified, rev, tols, aq, ctx)
+                            if (a + b) % 2 == 0:
+                                # mixed curve types: a quadratic segment immediately before the cubic one
+                                n += 1
+                                glyphs = [make_mixed_glyph("g", S[a], ((-400.0, -100.0), (-200.0, 150.0)), closed),
+                                          make_mixed_glyph("g", S[b], ((-380.0, -120.0), (-210.0, 140.0)), closed)]
+                                ins = [OP.contours_from_pointpen(g.rec.value) for g in glyphs]
+                                before = [list(g.rec.value) for g in glyphs]
+                                modified = _ufo.glyphs_to_quadratic(glyphs, max_err=list(err) if isinstance(err, tuple) else err,
+                                                                    reverse_direction=rev, all_quadratic=aq)
+                                rec.witness("quadratic segment directly before a cubic one")
+                                self.judge(rec, "glyphs_to_quadratic", glyphs, ins, before, modified, rev, tols, aq, ctx + ["mixed"])
                             if isinstance(err, tuple) and b % 9 == 0:
                                 # an empty master in front: documented to be skipped, the others keep their own tolerance
                                 n += 1
